@@ -77,6 +77,9 @@ def run_closed(ctx, case):
         D = rho.shape[0]
         dimt = tuple(dims)
         rank = int((np.linalg.eigvalsh(rho) > 1e-10).sum())
+        if c['fam'] == 'mixture' and c['vec'] == 'basis' and c['prng'] % 2 == 0 and np.allclose(rho, np.round(rho.real)):
+            rho = np.round(rho.real).astype([np.int64, np.int32, np.uint8][c['prng'] % 3])  # a basis product state written down with integers
+            ctx.label('integer dtype basis state')
         ctx.label('boundary state' if rank < D else 'full rank')
         tag = f'{c["fam"]} dims={dims}'
         ctx.require(E.is_ppt(rho, dimt) is True or E.is_ppt(rho, dimt) == True, 'is_ppt accepts a separable state', tag)  # noqa: E712
